@@ -104,13 +104,13 @@ def run(ctx, rep, tier):
     B.validate_parse(validation_corpus(ctx, seed=rep.seed, n_random=20) + ["-nouser", "-nogroup", "-perm 777x", "-true-ls", "nope", "-print0", "-printf",
                                                                           "-fprint0 a", "-xattr a", "-amin 5", "-a", "-true -and -false"])
     samples = []
-    t0 = time.time()
-    budget = 330 if q else 5000
+    t0 = time.process_time()
+    budget = 700 if q else 9000
     st = St()
     # ------------------------------------------------------------- (A) keyword identity
     kws = list(V.VOCAB) + ["-a", "-o", "-and", "-or", "-no", "-x", "no", "nop", "nope", "-"]
     for kw in kws:
-        if time.time() - t0 > budget * 0.5:
+        if time.process_time() - t0 > budget * 0.5:
             rep.coverage["truncated_A_at"] = kw
             break
         for k in ((0, 1, 3) if q else (0, 1, 2, 3, 4)):
@@ -165,7 +165,7 @@ def run(ctx, rep, tier):
     for kw, (cat, variant, kind) in V.VOCAB.items():
         if kind in (None, "format", "str format", "str str") or cat == "Global":
             continue
-        if time.time() - t0 > budget:
+        if time.process_time() - t0 > budget:
             rep.coverage["truncated_B_at"] = kw
             break
         lens = {"str": (1, 2), "types": (1, 2, 3), "perm": (3, 4, 5)}.get(kind, (1, 2, 3))
@@ -205,6 +205,26 @@ def run(ctx, rep, tier):
                         rep.violation("perm-trailing-junk", DEVIATIONS["perm-trailing-junk"] + "; witness %r -> %s" % (t, d.get("tree")), dict(input=t))
         if len(samples) < 12:
             samples.append(dict(check="argument language", keyword=kw, kind=str(kind), word_lengths=list(lens)))
+    # ------------------------------------------------------------- (B') long numeric arguments: in the language only if the value fits
+    LONG = {"-uid": (10, 11), "-stripe-count": (10,), "-links": (20, 21), "-size": (17, 20), "-mtime": (20,)} if q else \
+           {"-uid": (10, 11, 12), "-gid": (10,), "-inum": (10, 11), "-mirror-count": (10,), "-stripe-count": (10, 11), "-links": (20, 21, 22),
+            "-size": (16, 17, 18, 20, 21), "-mtime": (20, 21), "-amin": (20,)}
+    for kw, lens in LONG.items():
+        cat, variant, kind = V.VOCAB[kw]
+        for k in lens:
+            cs = [sym_char() for _ in range(k)]
+            unit_ok = z3.Or(*[cs[-1] == ord(x) for x in "0123456789bcwkMGTsmhd"])
+            asm = [z3.And(z3.UGE(c, 48), z3.ULE(c, 57)) for c in cs[:-1]] + [unit_ok]
+            r = B.parse([kw + " "] + cs, extra_assume=asm)
+            impl = impl_tree(r)
+            vals = V.argument(kind, cs, dev)
+            in_lang = b_or(*[g for g, _ in vals])
+            exp = merge_many([(g, V.node_for(kw, f)) for g, f in vals] + [(b_not(in_lang), V.NOT_IN_LANGUAGE)])
+            res, m = B.solve("B':%s:k%d" % (kw, k), r.assume, b_not(struct_eq(r.I, impl, exp, st)))
+            if res == z3.sat:
+                report(B, rep, model_string(m, [kw + " "] + cs), concretize(m, exp), "argument")
+        if len(samples) < 16:
+            samples.append(dict(check="long numeric argument", keyword=kw, digits=list(lens)))
     # ------------------------------------------------------------- (C) format-string arguments of -printf / -fprintf
     from spec import formatspec
     dev14 = tuple(k_["class"] for k_ in vlib.known_for("C14"))
